@@ -7,6 +7,7 @@ import (
 	"fmt"
 	"io"
 	stdslog "log/slog"
+	"os"
 	"strings"
 	"time"
 
@@ -283,6 +284,19 @@ func registerAll(cs []custLevel) error {
 	return nil
 }
 
+// c01watched: log files (made by slog.NewFileWriter) that are destinations of a logger under test; what is appended to
+// them counts as output of a call like a Write at a recording destination does.
+var c01watched []string
+
+func c01watchedSize() (n int64) {
+	for _, p := range c01watched {
+		if st, err := os.Stat(p); err == nil {
+			n += st.Size()
+		}
+	}
+	return
+}
+
 // c01sickW is a destination that takes half of what it is handed, silently or with an error.
 type c01sickW struct{ withErr bool }
 
@@ -361,6 +375,18 @@ func c01table(c *Ctx) {
 				l.SetWriter(sick).AddWriter(w1)
 				l.SetErrorWriter(sick).AddErrorWriter(w2)
 				l.AddLevelWriter(slog.InfoLevel, sick).AddLevelWriter(slog.InfoLevel, w3)
+			} else if idx%3 == 0 && idx > 0 && nRoots%2 == 0 {
+				// a log file made by NewFileWriter is the logger's normal AND error destination; then the normal class is
+				// re-pointed to another destination: the file stays the error device, error-class records arrive in it
+				if d, err := os.MkdirTemp("", "c01-fw-*"); err == nil {
+					path := d + "/app.log"
+					fw := slog.NewFileWriter(path)
+					l.SetWriter(fw).SetErrorWriter(fw).AddLevelWriter(slog.InfoLevel, w3)
+					l.SetWriter(w1)
+					c01watched = append(c01watched, path)
+				} else {
+					l.SetWriter(w1).SetErrorWriter(w2).AddLevelWriter(slog.InfoLevel, w3)
+				}
 			} else {
 				l.SetWriter(w1).SetErrorWriter(w2).AddLevelWriter(slog.InfoLevel, w3)
 			}
@@ -401,10 +427,16 @@ func c01table(c *Ctx) {
 		defRoot := mkRoot().Root()
 		defChild := defRoot.New("default-child")
 		defChild.SetWriter(w1).SetErrorWriter(w2)
+		// a child of a logger that was made with a log/slog handler among the arguments of New (what that argument does
+		// for the parent is not the subject here): the child is an ordinary logger with level and writers of its own
+		hParent := slog.New("made-with-a-handler", stdslog.NewTextHandler(io.Discard, nil)).Root()
+		hChild := hParent.New("ordinary-child")
+		hChild.SetWriter(w1).SetErrorWriter(w2)
+		hChild.SetColorMode(false)
 		kinds := []struct {
 			name string
 			l    slog.Logger
-		}{{"root-as-Logger", rootL}, {"root-as-Entry", rootE}, {"child", child}, {"default", defL}, {"default(a child of another logger)", defChild}}
+		}{{"child of a logger made with a log/slog handler argument", hChild}, {"root-as-Logger", rootL}, {"root-as-Entry", rootE}, {"child", child}, {"default", defL}, {"default(a child of another logger)", defChild}}
 		savedDefault := slog.Default()
 		defer slog.SetDefault(savedDefault)
 
@@ -501,11 +533,15 @@ func c01table(c *Ctx) {
 							}
 							ctx = ctxs[(cells/2)%len(ctxs)]
 							c.R.Distinct("caller_contexts", ctxNames[(cells/2)%len(ctxs)])
+							size0 := c01watchedSize()
 							e.call(kd.l, ctx, r)
 							if vm {
 								is.SetVerboseMode(false)
 							}
 							n := log.Len()
+							if c01watchedSize() > size0 {
+								n++ // the record went into a watched log file
+							}
 							cells++
 							want := admit(L, r, d, treat)
 							if e.verbose {
